@@ -4,6 +4,7 @@ out=$1; shift
 : > "$out"
 for id in "$@"; do
   prop=${id%%-*}
+  grep -q '"retired"' /verif/seeded/$id/meta.json 2>/dev/null && { echo "$id $prop RETIRED (no longer breaks the property; see meta.json)" >> "$out"; continue; }
   res=$(/verif/tools/seedtest.sh /verif/seeded/$id/patch.diff $prop 2>&1)
   if echo "$res" | grep -q "^VIOLATION"; then
     what=$(echo "$res" | grep -A1 "^VIOLATION" | sed -n 2p | cut -c1-260)
